@@ -61,6 +61,8 @@ type checkRun struct {
 	assumed   map[string]bool
 	inlined   map[string]bool
 	funcs     map[string]bool
+	axioms    map[string]bool
+	externs   map[string]bool
 	cuts      int
 	loops     int
 	flowOK    int
@@ -114,7 +116,7 @@ func cmdCheck(args []string) {
 		}
 	}
 	t0 := time.Now()
-	run := &checkRun{prop: p, tier: *tier, seed: seed, timeout: *timeout, assumed: map[string]bool{}, inlined: map[string]bool{}, funcs: map[string]bool{}, insts: map[string]instRef{}}
+	run := &checkRun{prop: p, tier: *tier, seed: seed, timeout: *timeout, assumed: map[string]bool{}, inlined: map[string]bool{}, funcs: map[string]bool{}, insts: map[string]instRef{}, axioms: map[string]bool{}, externs: map[string]bool{}}
 	cfgs := p.Quick
 	if *tier == "thorough" {
 		cfgs = p.Thorough
@@ -250,6 +252,9 @@ func (run *checkRun) generate(en *Engine, p *PropSpec) []*Obligation {
 				continue
 			}
 			run.funcs[en.funcKey(fn)] = true
+			if fc.CTOnly {
+				continue
+			}
 			if fc.Assumed {
 				run.assumed[en.funcKey(fn)] = true
 				continue
@@ -288,8 +293,35 @@ func (run *checkRun) generate(en *Engine, p *PropSpec) []*Obligation {
 			}
 		}
 	}
+	for _, fl := range p.Flow {
+		if fl == "ct" {
+			out = append(out, en.CTCheck(run)...)
+		}
+	}
+	if p.Ground {
+		_, grs := en.GroundFacts()
+		for _, g := range grs {
+			goal := True()
+			if !g.OK {
+				goal = False()
+			}
+			out = append(out, &Obligation{Name: g.Name + "[" + en.cfgName + "]", Kind: "ground", Func: "tables", Goal: goal, Detail: "table entry against the executable curve specification: " + g.Detail})
+		}
+	}
 	for k := range en.assumedUsed {
 		run.assumed[k] = true
+	}
+	for k := range en.usedAxioms {
+		run.axioms[k] = true
+	}
+	for k := range en.externCalls {
+		run.externs[k] = true
+	}
+	for k := range en.unsafeUses {
+		run.externs["unsafe: "+k] = true
+	}
+	for k := range en.missingAnchors {
+		run.externs["lemma anchor missing in the code: "+k] = true
 	}
 	for k := range en.inlined {
 		run.inlined[k] = true
@@ -432,7 +464,22 @@ func writeEvidence(run *checkRun, verif string, wall time.Duration, violations i
 	trusted := append([]string(nil), commonTrusted...)
 	trusted = append(trusted, run.prop.Trusted...)
 	for _, a := range assumed {
-		trusted = append(trusted, "assumed contract (body not verified): "+a)
+		trusted = append(trusted, "assumed contract / postcondition (not verified of the body): "+a)
+	}
+	var axs, exts []string
+	for k := range run.axioms {
+		axs = append(axs, k)
+	}
+	for k := range run.externs {
+		exts = append(exts, k)
+	}
+	sort.Strings(axs)
+	sort.Strings(exts)
+	for _, a := range axs {
+		trusted = append(trusted, "axiom used: "+a)
+	}
+	for _, a := range exts {
+		trusted = append(trusted, "model: "+a)
 	}
 	ev := map[string]interface{}{
 		"property_id": run.prop.ID,
